@@ -215,6 +215,22 @@ impl EventGen for Container {
                 if bbox.is_some() {
                     context.set_prev_element(&new_el);
                 }
+                // Elements which are only ever referenced (wherever they are written,
+                // not just inside <defs>) are not drawn where they stand: their content
+                // is recorded above - a clip-path needs it - but adds nothing to the
+                // extent of their parent.
+                if matches!(
+                    self.0.name.as_str(),
+                    "clipPath"
+                        | "mask"
+                        | "marker"
+                        | "pattern"
+                        | "linearGradient"
+                        | "radialGradient"
+                        | "filter"
+                ) {
+                    bbox = None;
+                }
                 Ok((events, bbox))
             }
         } else {
